@@ -59,6 +59,21 @@ theorem tables_shifted (tables : List (List (List Nat))) (offsets : List Nat)
       then ((tables.getD k []).getD r []).getD c 0 + offsets.getD k 0 else 0 :=
   Lemmas.tables_shifted tables offsets hlen k r c hr
 
+/-- Channel-index tables (`pc_feature_ind`) land in the merged channel numbering for ANY channel maps
+(gaps, arbitrary raw indices): entry `c` of a row of probe `k` that names one of the probe's
+channels (`c < |map k|`) becomes a row of the merged channel table that is labelled with probe `k`
+and holds exactly the (shifted) raw channel the entry named. -/
+theorem pc_ind_in_block (maps : List (List Nat)) (tables : List (List (List Nat))) (k r j : Nat)
+    (hk : k < maps.length) (hlen : tables.length = maps.length)
+    (hr : r < (tables.getD k []).length) (hj : j < ((tables.getD k []).getD r []).length)
+    (hc : ((tables.getD k []).getD r []).getD j 0 < (maps.getD k []).length) :
+    let c := ((tables.getD k []).getD r []).getD j 0
+    let c' := ((mergePcInd maps tables).getD (prefixSum (tables.map List.length) k + r) []).getD j 0
+    c' = prefixSum (maps.map List.length) k + c ∧
+    (channelProbes maps).getD c' maps.length = k ∧
+    (mergeChannelMaps maps).getD c' 0 = (maps.getD k []).getD c 0 + (chanOffsets maps).getD k 0 :=
+  Lemmas.pc_ind_in_block maps tables k r j hk hlen hr hj hc
+
 /-- Whitening / similarity matrices: block-diagonal with the per-probe matrices as blocks. -/
 theorem blockDiag_entries (ms : List (List (List α))) (hsq : ∀ m ∈ ms, ∀ row ∈ m, row.length = m.length)
     (k i j : Nat) (hi : i < (ms.getD k []).length) :
@@ -86,5 +101,8 @@ example : mergePositions [[(0, 0), (0, 20)], [(0, 0), (0, 20)]] = [(0, 0), (0, 2
 example : mergeTemplates [[[[1, 2]], [[3, 4]]], [[[5, 6, 7]]]] =
     ([[[1, 2, 0, 0, 0]], [[3, 4, 0, 0, 0]], [[0, 0, 5, 6, 7]]] : List (List (List Int))) := by decide
 example : blockDiag [[[1, 2], [3, 4]], [[5]]] = ([[1, 2, 0], [3, 4, 0], [0, 0, 5]] : List (List Int)) := by decide
+
+example : mergePcInd [[1, 3, 0], [3, 1, 2]] [[[0, 2], [2, 1]], [[2, 0], [1, 0]]] = [[0, 2], [2, 1], [5, 3], [4, 3]] := by decide
+example : chanOffsets [[1, 3, 0], [3, 1, 2]] = [0, 4] ∧ chanIndexOffsets [[1, 3, 0], [3, 1, 2]] = [0, 3] := by decide
 
 end PhyVerif.C12
